@@ -190,6 +190,7 @@ Section RT.
   (* static sanity of a property list (what the reflector produces for a proto message) *)
   Record props_ok (ps : list property) : Prop := {
     po_names : NoDup (map p_json ps);
+    po_nodup : NoDup (leaves ps);
     po_paths : forall l, In l (leaves ps) -> p_path l <> [];
     po_diverge : forall l1 l2, In l1 (leaves ps) -> In l2 (leaves ps) -> l1 <> l2 ->
                  paths_diverge (p_path l1) (p_path l2);
@@ -204,6 +205,14 @@ Section RT.
     | _ => any_inner (sfield 1 m) (sfield 2 m)
     end.
 
+  (* arrays and maps hold scalars, enums, objects or oneofs (the classes the reflector builds) *)
+  Definition item_ok (t : field_ty) : bool :=
+    match t with FScalar _ | FEnum _ | FObject _ | FOneof _ => true | _ => false end.
+
+  (* members of an exposed oneof property *)
+  Definition exposed_members (p : property) : list property :=
+    match p_path p with [] => prop_leaves p | _ => [] end.
+
   Inductive rep_value : field_ty -> pval -> Prop :=
   | RV_scalar k v : rep_scalar k v -> rep_value (FScalar k) v
   | RV_enum r pre opts n name :
@@ -213,12 +222,11 @@ Section RT.
       lookup env r = Some (SObject ps) -> rep_props ps m -> rep_value (FObject r) (VMsg m)
   | RV_oneof r ps m :
       lookup env r = Some (SOneof ps) -> rep_props ps m ->
-      (forall q, In q ps -> p_json q <> txt_type) ->
       rep_value (FOneof r) (VMsg m)
   | RV_array it l :
-      l <> [] -> Forall (rep_value it) l -> rep_value (FArray it) (VList l)
+      l <> [] -> item_ok it = true -> Forall (rep_value it) l -> rep_value (FArray it) (VList l)
   | RV_map it es :
-      es <> [] -> NoDup (map fst es) -> Forall (fun kv => rep_value it (snd kv)) es ->
+      es <> [] -> item_ok it = true -> NoDup (map fst es) -> Forall (fun kv => rep_value it (snd kv)) es ->
       rep_value (FMap it) (VMap es)
   | RV_any m :
       (* a j5 Any: the type name is text, the payload is JSON text that the encoder can produce *)
@@ -234,6 +242,8 @@ Section RT.
          rep_value (p_ty l) v /\ kept (p_explicit l) v = true) ->
       (forall l a n s v, In l (leaves ps) -> p_path l = a ++ [n] -> present (p_path l) m = Some v ->
          In s (p_siblings l) -> msg_get s (hole a m) = None) ->
+      (forall p q1 q2, In p ps -> In q1 (exposed_members p) -> In q2 (exposed_members p) ->
+         present (p_path q1) m <> None -> present (p_path q2) m <> None -> q1 = q2) ->
       rep_props ps m.
 
   Inductive equiv_value : field_ty -> pval -> pval -> Prop :=
@@ -332,7 +342,7 @@ Section RT.
     Inv (leaves ps) m (l :: D) acc'.
   Proof.
     intros Hok Hrep [I1 I2] Hl HnD Hp Hm Heq Hset Hframe.
-    inversion Hrep as [? ? _ _ Hexcl]; subst.
+    inversion Hrep as [? ? _ _ Hexcl _]; subst.
     split.
     - intros l' [<-|Hin] HL.
       + rewrite Hm, Hset. constructor. exact Heq.
@@ -622,6 +632,11 @@ Section RT.
   Qed.
 
   Hypothesis Hflat : oneofs_flat env.
+  (* members of a oneof schema have distinct JSON names, none of them "!type" *)
+  Definition oneof_names_ok : Prop :=
+    forall name ps, lookup env name = Some (SOneof ps) ->
+      NoDup (map p_json ps) /\ forall q, In q ps -> p_json q <> txt_type.
+  Hypothesis Hnames : oneof_names_ok.
 
   Lemma leaves_flat ps : Forall (fun p => p_path p <> []) ps -> leaves ps = ps.
   Proof.
@@ -641,7 +656,7 @@ Section RT.
     exists acc', dec_member F d l J acc seen = Ok (acc', p_json l :: seen) /\ Inv (leaves ps0) m (l :: D) acc'.
   Proof.
     intros Hok Hrep HInv Hl HnD Hm Hdec HJ Hwf HF Hd Hseen.
-    inversion Hrep as [? ? _ Hvals Hexcl]; subst.
+    inversion Hrep as [? ? _ Hvals Hexcl _]; subst.
     destruct (Hvals l v Hl Hm) as [Hrv Hkept].
     pose proof (app_removelast_last 0 (po_paths ps0 Hok l Hl)) as Hsn.
     set (a := removelast (p_path l)) in *. set (n := last (p_path l) 0) in *.
@@ -686,8 +701,8 @@ Section RT.
         exists acc', (VMsg b). split; [exact Hh|]. split; [econstructor; eassumption|]. split; assumption.
       - (* oneof wrapper held by a field *)
         destruct Hdec as (ps & ms & mv & Hlk & -> & -> & Hone). rewrite Hlk.
-        inversion Hrv as [| | |? ? ? Hlk' Hrp Hnt| | |]; subst. rewrite Hlk in Hlk'. injection Hlk' as <-.
-        inversion Hrp as [? ? Hokps _ _]; subst.
+        inversion Hrv as [| | |? ? ? Hlk' Hrp| | |]; subst. rewrite Hlk in Hlk'. injection Hlk' as <-.
+        inversion Hrp as [? ? Hokps _ _ _]; subst.
         pose proof (leaves_flat ps (Hflat _ _ Hlk)) as Hlv.
         destruct (Hone F (d + 1) ps [] []) as (b & Hb & HinvB).
         { rewrite jsize_obj in HF. lia. } { unfold depth_ok in *. rewrite jnest_obj in Hd. lia. }
@@ -748,5 +763,476 @@ Section RT.
     destruct Hgoal as (acc' & v' & Hdv & Heq & Hp & Hfr).
     rewrite Hseen, Hconf, Hdv. cbn [obind]. exists acc'. split; [destruct J; try reflexivity; congruence|].
     eapply inv_step; eassumption.
+  Qed.
+
+  Lemma inv_extend L m D1 D2 acc :
+    Inv L m D1 acc -> (forall l, In l D1 -> In l D2) ->
+    (forall l, In l D2 -> In l L -> In l D1 \/ present (p_path l) m = None) ->
+    Inv L m D2 acc.
+  Proof.
+    intros HI Hsub Hnew. pose proof HI as [I1 I2]. split.
+    - intros l H2 HL. destruct (Hnew l H2 HL) as [H1|Hn]; [apply I1; assumption|].
+      rewrite Hn, (inv_none _ _ _ _ _ HI HL Hn). constructor.
+    - intros l HL Hn. apply I2; [exact HL|]. intros H1. apply Hn, Hsub, H1.
+  Qed.
+
+  Lemma bytes_eqb_refl s : bytes_eqb s s = true.
+  Proof. induction s as [|c r IH]; [reflexivity|]. cbn [bytes_eqb]. rewrite N.eqb_refl, IH. reflexivity. Qed.
+
+  Lemma bytes_eqb_eq a b : bytes_eqb a b = true -> a = b.
+  Proof.
+    revert b. induction a as [|c r IH]; intros [|c' r'] H; try discriminate; [reflexivity|].
+    cbn [bytes_eqb] in H. apply andb_true_iff in H as [H1 H2]. apply N.eqb_eq in H1. subst. f_equal. apply IH. exact H2.
+  Qed.
+
+  Lemma bytes_eqb_neq a b : a <> b -> bytes_eqb a b = false.
+  Proof. intros H. destruct (bytes_eqb a b) eqn:E; [|reflexivity]. exfalso. apply H, bytes_eqb_eq, E. Qed.
+
+  (* ---------------------------------------------------------------- oneofs *)
+  (* {} : nothing is set *)
+  Lemma oneof_dec_empty r ps m : lookup env r = Some (SOneof ps) ->
+    (forall q, In q ps -> present (p_path q) m = None) -> OneofDec ps m [].
+  Proof.
+    intros Hlk Hnone F d ps0 acc D HF Hd Hok Hrep Hsub HInv HnD.
+    destruct F as [|F]; [lia|]. rewrite dec_oneof_S. cbn [oneof_post]. exists acc. split; [reflexivity|].
+    apply (inv_extend _ _ D); [exact HInv|intros l H; apply in_or_app; right; exact H|].
+    intros l H2 HL. apply in_app_or in H2 as [Hq|HD]; [right; apply Hnone; exact Hq|left; exact HD].
+  Qed.
+
+  (* {"!type": name, name: value} *)
+  Lemma oneof_dec_one r ps m q v J : lookup env r = Some (SOneof ps) ->
+    In q ps -> present (p_path q) m = Some v ->
+    (forall q', In q' ps -> q' <> q -> present (p_path q') m = None) ->
+    dec_ok_value (p_ty q) v J -> J <> JNull -> wfb J = true ->
+    OneofDec ps m [(txt_type, JStr (p_json q)); (p_json q, J)].
+  Proof.
+    intros Hlk Hq Hv Hoth Hdec HJ Hwf F d ps0 acc D HF Hd Hok Hrep Hsub HInv HnD.
+    destruct (Hnames _ _ Hlk) as [Hnd Hnt].
+    cbn [lsize fold_right snd jsize] in HF. cbn [lnest fold_right snd jnest] in Hd.
+    destruct F as [|F]; [lia|]. rewrite dec_oneof_S. rewrite bytes_eqb_refl.
+    destruct F as [|F]; [lia|]. rewrite dec_oneof_S.
+    rewrite (bytes_eqb_neq _ _ (Hnt q Hq)). rewrite (find_prop_nodup ps q Hnd Hq).
+    destruct (leaf_read ps0 m D acc q v J F d [] Hok Hrep HInv (Hsub q Hq) (HnD q Hq) Hv Hdec HJ Hwf)
+      as (acc' & Hdm & HInv'); [lia| |reflexivity|].
+    { unfold depth_ok in *. lia. }
+    rewrite Hdm. cbn [obind fst snd app].
+    destruct F as [|F]; [pose proof (jsize_pos J); lia|]. rewrite dec_oneof_S. cbn [oneof_post]. rewrite bytes_eqb_refl.
+    exists acc'. split; [reflexivity|].
+    apply (inv_extend _ _ (q :: D)); [exact HInv'| |].
+    - intros l [<-|HD]; apply in_or_app; [left; exact Hq|right; exact HD].
+    - intros l H2 HL. apply in_app_or in H2 as [Hl|HD]; [|left; right; exact HD].
+      destruct (property_eq_dec l q) as [->|Hne]; [left; left; reflexivity|right; apply Hoth; assumption].
+  Qed.
+
+  (* ---------------------------------------------------------------- arrays and maps *)
+  Lemma dec_items_S f d it js acc :
+    dec_items (S f) d it js acc =
+      match js with
+      | [] => Ok acc
+      | j :: r =>
+          match it with
+          | FScalar k =>
+              if is_container j then Err "unexpected token, expected scalar"
+              else obind (dec_scalar k j) (fun v =>
+                     match v with
+                     | None => Err "cannot append nil value"
+                     | Some x => dec_items f d it r (acc ++ [x])
+                     end)
+          | FEnum ref =>
+              match j, lookup env ref with
+              | JStr s, Some (SEnum prefix opts) =>
+                  match option_by_name prefix opts s with
+                  | Some z => dec_items f d it r (acc ++ [VEnum z])
+                  | None => Err "enum value not found"
+                  end
+              | JStr _, _ => Err "schema"
+              | _, _ => Err "cannot set enum value"
+              end
+          | FObject ref =>
+              match j, lookup env ref with
+              | JObj ms, Some (SObject props) =>
+                  obind (dec_members f d props ms [] []) (fun sub => dec_items f d it r (acc ++ [VMsg sub]))
+              | JObj _, _ => Err "schema"
+              | _, _ => Err "unexpected token, expected {"
+              end
+          | FOneof ref =>
+              match j, lookup env ref with
+              | JObj ms, Some (SOneof props) =>
+                  obind (dec_oneof f d props ms [] [] [] None) (fun sub => dec_items f d it r (acc ++ [VMsg sub]))
+              | JObj _, _ => Err "schema"
+              | _, _ => Err "unexpected token, expected {"
+              end
+          | _ => Err "unknown array schema type"
+          end
+      end.
+  Proof. reflexivity. Qed.
+
+  Lemma dec_entries_S f d it ms acc seen :
+    dec_entries (S f) d it ms acc seen =
+      match ms with
+      | [] => Ok acc
+      | (key, j) :: r =>
+          match it with
+          | FScalar k =>
+              if mem_b key seen then Err "key already exists in map"
+              else if is_container j then Err "unexpected token, expected scalar"
+              else obind (dec_scalar k j) (fun v =>
+                     match v with
+                     | None => Err "cannot set nil value"
+                     | Some x => dec_entries f d it r (map_set key x acc) (key :: seen)
+                     end)
+          | FEnum ref =>
+              if mem_b key seen then Err "key already exists in map" else
+              match j, lookup env ref with
+              | JStr s, Some (SEnum prefix opts) =>
+                  match option_by_name prefix opts s with
+                  | Some z => dec_entries f d it r (map_set key (VEnum z) acc) (key :: seen)
+                  | None => Err "enum value not found"
+                  end
+              | JStr _, _ => Err "schema"
+              | _, _ => Err "unexpected token, expected string"
+              end
+          | FObject ref =>
+              match map_get key acc with
+              | Some _ => Err "key already exists in map"
+              | None =>
+                match j, lookup env ref with
+                | JObj ms', Some (SObject props) =>
+                    obind (dec_members f d props ms' [] []) (fun sub => dec_entries f d it r (map_set key (VMsg sub) acc) seen)
+                | JObj _, _ => Err "schema"
+                | _, _ => Err "unexpected token, expected {"
+                end
+              end
+          | FOneof ref =>
+              match map_get key acc with
+              | Some _ => Err "key already exists in map"
+              | None =>
+                match j, lookup env ref with
+                | JObj ms', Some (SOneof props) =>
+                    obind (dec_oneof f d props ms' [] [] [] None) (fun sub => dec_entries f d it r (map_set key (VMsg sub) acc) seen)
+                | JObj _, _ => Err "schema"
+                | _, _ => Err "unexpected token, expected {"
+                end
+              end
+          | _ => Err "unknown map schema type"
+          end
+      end.
+  Proof. reflexivity. Qed.
+
+  Definition elem_ok (it : field_ty) (v : pval) (J : jvalue) : Prop :=
+    rep_value it v /\ dec_ok_value it v J /\ wfb J = true /\ J <> JNull.
+
+  (* the value one element of type [it] decodes to, on its own *)
+  Lemma oneof_fresh r ps mv ms F d :
+    lookup env r = Some (SOneof ps) -> rep_props ps mv -> OneofDec ps mv ms ->
+    (3 * lsize ms + 3 <= F)%nat -> depth_ok d (S (lnest ms)) ->
+    exists b, dec_oneof F d ps ms [] [] [] None = Ok b /\ equiv_props ps mv b.
+  Proof.
+    intros Hlk Hrp Hone HF Hd. inversion Hrp as [? ? Hokps _ _ _]; subst.
+    pose proof (leaves_flat ps (Hflat _ _ Hlk)) as Hlv.
+    destruct (Hone F d ps [] [] HF Hd Hokps Hrp) as (b & Hb & [I1 _]).
+    { rewrite Hlv. auto. } { apply inv_nil. } { intros q _ []. }
+    exists b. split; [exact Hb|]. constructor. intros q Hq. apply I1; [|exact Hq].
+    rewrite Hlv in Hq. apply in_or_app. left. exact Hq.
+  Qed.
+
+  Lemma items_rt it : item_ok it = true -> forall l js, Forall2 (elem_ok it) l js ->
+    forall F d acc, (3 * asize js + 3 <= F)%nat -> depth_ok d (anest js) ->
+    exists l', dec_items F d it js acc = Ok (acc ++ l') /\ Forall2 (equiv_value it) l l'.
+  Proof.
+    intros Hit l js H2. induction H2 as [|v J l js (Hrv & Hdec & Hwf & HJ) _ IH]; intros F d acc HF Hd.
+    - destruct F as [|F]; [lia|]. rewrite dec_items_S. exists []. rewrite app_nil_r. split; [reflexivity|constructor].
+    - cbn [asize fold_right] in HF. fold (asize js) in HF. cbn [anest fold_right] in Hd. fold (anest js) in Hd.
+      pose proof (jsize_pos J) as HJs.
+      destruct F as [|F]; [lia|]. rewrite dec_items_S.
+      assert (Hd' : depth_ok d (anest js)) by (unfold depth_ok in *; lia).
+      destruct it as [k|r|r|r|it'|it'|pb]; try discriminate; cbn [dec_ok_value] in Hdec.
+      + destruct Hdec as (Hnc & v' & Hds & Heq & _). rewrite Hnc, Hds. cbn [obind].
+        destruct (IH F d (acc ++ [v'])) as (l' & Hl' & Hf); [lia|exact Hd'|].
+        exists (v' :: l'). rewrite Hl', <- app_assoc. split; [reflexivity|]. constructor; [constructor; exact Heq|exact Hf].
+      + destruct Hdec as (pre & opts & s & z & Hlk & -> & Hbn & ->). rewrite Hlk, Hbn.
+        destruct (IH F d (acc ++ [VEnum z])) as (l' & Hl' & Hf); [lia|exact Hd'|].
+        exists (VEnum z :: l'). rewrite Hl', <- app_assoc. split; [reflexivity|]. constructor; [constructor|exact Hf].
+      + destruct Hdec as (ps & ms & mv & Hlk & -> & -> & Hobj). rewrite Hlk.
+        destruct (Hobj F d) as (b & Hb & Heq).
+        { rewrite jsize_obj in HF. lia. } { unfold depth_ok in *. rewrite jnest_obj in Hd. lia. }
+        rewrite Hb. cbn [obind].
+        destruct (IH F d (acc ++ [VMsg b])) as (l' & Hl' & Hf); [lia|exact Hd'|].
+        exists (VMsg b :: l'). rewrite Hl', <- app_assoc. split; [reflexivity|]. constructor; [econstructor; eassumption|exact Hf].
+      + destruct Hdec as (ps & ms & mv & Hlk & -> & -> & Hone). rewrite Hlk.
+        inversion Hrv as [| | |? ? ? Hlk' Hrp| | |]; subst. rewrite Hlk in Hlk'. injection Hlk' as <-.
+        destruct (oneof_fresh r ps mv ms F d Hlk Hrp Hone) as (b & Hb & Heq).
+        { rewrite jsize_obj in HF. lia. } { unfold depth_ok in *. rewrite jnest_obj in Hd. lia. }
+        rewrite Hb. cbn [obind].
+        destruct (IH F d (acc ++ [VMsg b])) as (l' & Hl' & Hf); [lia|exact Hd'|].
+        exists (VMsg b :: l'). rewrite Hl', <- app_assoc. split; [reflexivity|]. constructor; [econstructor; eassumption|exact Hf].
+  Qed.
+
+  Lemma map_set_fresh k x acc : map_get k acc = None -> map_set k x acc = acc ++ [(k, x)].
+  Proof.
+    induction acc as [|[k' w] r IH]; intros H; [reflexivity|]. cbn [map_get map_set] in *.
+    destruct (bytes_eqb k' k); [discriminate|]. rewrite IH by exact H. reflexivity.
+  Qed.
+
+  Lemma map_get_snoc k k1 x acc : k <> k1 -> map_get k (acc ++ [(k1, x)]) = map_get k acc.
+  Proof.
+    intros Hne. induction acc as [|[k' w] r IH]; cbn [app map_get].
+    - rewrite (bytes_eqb_neq k1 k) by congruence. reflexivity.
+    - destruct (bytes_eqb k' k); [reflexivity|exact IH].
+  Qed.
+
+  Lemma mem_b_false x l : mem_b x l = false <-> ~ In x l.
+  Proof.
+    induction l as [|y r IH]; cbn [mem_b In]; [tauto|]. split.
+    - intros H. apply orb_false_iff in H as [H1 H2]. intros [->|Hin]; [rewrite bytes_eqb_refl in H1; discriminate|].
+      apply IH in H2. contradiction.
+    - intros H. apply orb_false_iff. split; [apply bytes_eqb_neq; intros ->; apply H; left; reflexivity|].
+      apply IH. intros Hin. apply H. right. exact Hin.
+  Qed.
+
+  Lemma entries_rt it : item_ok it = true -> forall es ms,
+    Forall2 (fun kv km => fst kv = fst km /\ elem_ok it (snd kv) (snd km)) es ms ->
+    NoDup (map fst ms) ->
+    forall F d acc seen, (3 * lsize ms + 3 <= F)%nat -> depth_ok d (lnest ms) ->
+      (forall k, In k (map fst ms) -> map_get k acc = None /\ ~ In k seen) ->
+    exists es', dec_entries F d it ms acc seen = Ok (acc ++ es') /\
+                Forall2 (fun kv kv' => fst kv = fst kv' /\ equiv_value it (snd kv) (snd kv')) es es'.
+  Proof.
+    intros Hit es ms H2. induction H2 as [|[k v] [k' J] es ms (Hk & Hrv & Hdec & Hwf & HJ) _ IH]; intros Hnd F d acc seen HF Hd Hfresh.
+    - destruct F as [|F]; [lia|]. rewrite dec_entries_S. exists []. rewrite app_nil_r. split; [reflexivity|constructor].
+    - cbn [fst snd] in *. subst k'. cbn [map fst] in Hnd. inversion Hnd as [|? ? Hni Hnd']; subst.
+      cbn [lsize fold_right snd] in HF. fold (lsize ms) in HF. cbn [lnest fold_right snd] in Hd. fold (lnest ms) in Hd.
+      pose proof (jsize_pos J) as HJs.
+      destruct (Hfresh k (or_introl eq_refl)) as [Hget Hseen]. apply mem_b_false in Hseen.
+      destruct F as [|F]; [lia|]. rewrite dec_entries_S.
+      assert (Hd' : depth_ok d (lnest ms)) by (unfold depth_ok in *; lia).
+      assert (Hnext : forall x s2, (s2 = seen \/ s2 = k :: seen) ->
+                forall k2, In k2 (map fst ms) -> map_get k2 (acc ++ [(k, x)]) = None /\ ~ In k2 s2).
+      { intros x s2 Hs2 k2 Hk2. assert (Hne : k2 <> k) by (intros ->; contradiction).
+        destruct (Hfresh k2 (or_intror Hk2)) as [Hg Hs]. split; [rewrite map_get_snoc by exact Hne; exact Hg|].
+        destruct Hs2 as [->| ->]; [exact Hs|]. intros [E|Hin]; [congruence|contradiction]. }
+      destruct it as [sk|r|r|r|it'|it'|pb]; try discriminate; cbn [dec_ok_value] in Hdec.
+      + destruct Hdec as (Hnc & v' & Hds & Heq & _). rewrite Hseen, Hnc, Hds. cbn [obind].
+        rewrite map_set_fresh by exact Hget.
+        destruct (IH Hnd' F d (acc ++ [(k, v')]) (k :: seen)) as (es' & Hes' & Hf); [lia|exact Hd'|apply Hnext; right; reflexivity|].
+        exists ((k, v') :: es'). rewrite Hes', <- app_assoc. split; [reflexivity|].
+        constructor; [split; [reflexivity|constructor; exact Heq]|exact Hf].
+      + destruct Hdec as (pre & opts & s & z & Hlk & -> & Hbn & ->). rewrite Hseen, Hlk, Hbn.
+        rewrite map_set_fresh by exact Hget.
+        destruct (IH Hnd' F d (acc ++ [(k, VEnum z)]) (k :: seen)) as (es' & Hes' & Hf); [lia|exact Hd'|apply Hnext; right; reflexivity|].
+        exists ((k, VEnum z) :: es'). rewrite Hes', <- app_assoc. split; [reflexivity|].
+        constructor; [split; [reflexivity|constructor]|exact Hf].
+      + destruct Hdec as (ps & ms' & mv & Hlk & -> & -> & Hobj). rewrite Hget, Hlk.
+        destruct (Hobj F d) as (b & Hb & Heq).
+        { rewrite jsize_obj in HF. lia. } { unfold depth_ok in *. rewrite jnest_obj in Hd. lia. }
+        rewrite Hb. cbn [obind]. rewrite map_set_fresh by exact Hget.
+        destruct (IH Hnd' F d (acc ++ [(k, VMsg b)]) seen) as (es' & Hes' & Hf); [lia|exact Hd'|apply Hnext; left; reflexivity|].
+        exists ((k, VMsg b) :: es'). rewrite Hes', <- app_assoc. split; [reflexivity|].
+        constructor; [split; [reflexivity|econstructor; eassumption]|exact Hf].
+      + destruct Hdec as (ps & ms' & mv & Hlk & -> & -> & Hone). rewrite Hget, Hlk.
+        inversion Hrv as [| | |? ? ? Hlk' Hrp| | |]; subst. rewrite Hlk in Hlk'. injection Hlk' as <-.
+        destruct (oneof_fresh r ps mv ms' F d Hlk Hrp Hone) as (b & Hb & Heq).
+        { rewrite jsize_obj in HF. lia. } { unfold depth_ok in *. rewrite jnest_obj in Hd. lia. }
+        rewrite Hb. cbn [obind]. rewrite map_set_fresh by exact Hget.
+        destruct (IH Hnd' F d (acc ++ [(k, VMsg b)]) seen) as (es' & Hes' & Hf); [lia|exact Hd'|apply Hnext; left; reflexivity|].
+        exists ((k, VMsg b) :: es'). rewrite Hes', <- app_assoc. split; [reflexivity|].
+        constructor; [split; [reflexivity|econstructor; eassumption]|exact Hf].
+  Qed.
+
+  (* ---------------------------------------------------------------- the induction over the encoder *)
+  Hypothesis Hfloat_ok : float_text_ok fmt_float.
+  Hypothesis Hfloat_rt : float_roundtrip fmt_float parse_float.
+  Hypothesis Htime : time_parse_extends parse_time.
+  Hypothesis Hinner : inner_ok any_inner.
+
+  Notation enc_value := (enc_value fmt_float any_inner env).
+  Notation enc_object := (enc_object fmt_float any_inner env).
+  Notation enc_oneof := (enc_oneof fmt_float any_inner env).
+
+  Definition T_value (f : nat) : Prop := forall t v txt,
+    enc_value f t v = Ok txt -> rep_value t v ->
+    exists J, txt = print J /\ wfb J = true /\ J <> JNull /\ dec_ok_value t v J.
+  Definition T_object (f : nat) : Prop := forall ps m txt,
+    enc_object f ps m = Ok txt -> rep_props ps m ->
+    exists ms, txt = print (JObj ms) /\ wfb (JObj ms) = true /\ ObjDec ps m ms.
+  Definition T_oneof (f : nat) : Prop := forall r qs m txt,
+    lookup env r = Some (SOneof qs) -> enc_oneof f qs m = Ok txt ->
+    (forall q v, In q qs -> present (p_path q) m = Some v -> rep_value (p_ty q) v) ->
+    exists ms, txt = print (JObj ms) /\ wfb (JObj ms) = true /\ OneofDec qs m ms.
+
+  Lemma prop_present_leaf p m : p_path p <> [] -> prop_present env p m = present (p_path p) m.
+  Proof. intros H. unfold prop_present. destruct (p_path p); [congruence|reflexivity]. Qed.
+
+  Lemma NoDup_app_l {A} (a b : list A) : NoDup (a ++ b) -> NoDup a /\ NoDup b /\ forall x, In x a -> ~ In x b.
+  Proof.
+    induction a as [|x a IH]; cbn [app]; intros H.
+    - split; [constructor|]. split; [exact H|]. intros x [].
+    - inversion H as [|? ? Hni Hnd]; subst. destruct (IH Hnd) as (Ha & Hb & Hd). split; [|split; [exact Hb|]].
+      + constructor; [|exact Ha]. intros Hin. apply Hni. apply in_or_app. left. exact Hin.
+      + intros y [<-|Hy]; [intros Hin; apply Hni; apply in_or_app; right; exact Hin|apply Hd; exact Hy].
+  Qed.
+
+  Lemma mp_in qs m q v : In (q, v) (members_present qs m) -> In q qs /\ present (p_path q) m = Some v.
+  Proof.
+    unfold members_present. intros H. apply in_flat_map in H as (x & Hx & Hi).
+    destruct (present (p_path x) m) eqn:P; [|contradiction]. destruct Hi as [[= <- <-]|[]]. split; assumption.
+  Qed.
+
+  Lemma mp_nodup qs m : NoDup qs -> NoDup (map fst (members_present qs m)).
+  Proof.
+    unfold members_present. induction 1 as [|z r Hni Hnd IH]; cbn [flat_map map]; [constructor|].
+    destruct (present (p_path z) m) eqn:P; cbn [app map fst]; [|exact IH].
+    constructor; [|exact IH]. intros Hin. apply in_map_iff in Hin as ([q v] & Hq & Hin). cbn [fst] in Hq. subst q.
+    apply (mp_in r m z v) in Hin as [Hin _]. contradiction.
+  Qed.
+
+  (* members of an exposed oneof that is not "set": none is populated *)
+  Lemma exposed_unset m qs : (forall q1 q2, In q1 qs -> In q2 qs ->
+        present (p_path q1) m <> None -> present (p_path q2) m <> None -> q1 = q2) ->
+    NoDup qs ->
+    (match members_present qs m with [_] => Some (VMsg m) | _ => None end) = None ->
+    forall q, In q qs -> present (p_path q) m = None.
+  Proof.
+    intros Hone Hnd Hmp. pose proof (members_spec qs m) as Hs. pose proof (mp_nodup qs m Hnd) as Hn.
+    destruct (members_present qs m) as [|[q1 v1] [|[q2 v2] t]] eqn:E.
+    - exact Hs.
+    - discriminate.
+    - exfalso.
+      destruct (mp_in qs m q1 v1 ltac:(rewrite E; left; reflexivity)) as [Hi1 P1].
+      destruct (mp_in qs m q2 v2 ltac:(rewrite E; right; left; reflexivity)) as [Hi2 P2].
+      assert (Heq : q1 = q2) by (apply Hone; try assumption; congruence).
+      cbn [map fst] in Hn. inversion Hn as [|? ? Hni _]; subst. apply Hni. left. reflexivity.
+  Qed.
+
+  Lemma members_rt f m ps :
+    T_value f -> (forall f', f = S f' -> T_oneof f') -> props_ok ps -> rep_props ps m ->
+    forall ps1 xs,
+      sequence (map (fun p => obind (prop_lookup env lookup_fuel p m) (fun ov =>
+                  match ov with
+                  | None => Ok []
+                  | Some v => obind (escape (p_json p)) (fun l => omap (fun b => [member l b]) (enc_value f (p_ty p) v))
+                  end)) ps1) = Ok xs ->
+      (forall p, In p ps1 -> In p ps) -> NoDup (map p_json ps1) -> NoDup (leaves ps1) ->
+      exists ms1, concat xs = map member_text ms1 /\
+        forallb (fun kv => valid_utf8 (fst kv) && wfb (snd kv)) ms1 = true /\
+        forall F d acc D seen, (3 * lsize ms1 + 3 <= F)%nat -> depth_ok d (S (lnest ms1)) ->
+          Inv (leaves ps) m D acc -> (forall l, In l (leaves ps1) -> ~ In l D) ->
+          (forall p, In p ps1 -> ~ In (p_json p) seen) ->
+          exists acc', dec_members F d ps ms1 acc seen = Ok acc' /\ Inv (leaves ps) m (leaves ps1 ++ D) acc'.
+  Proof.
+    intros TV TO Hok Hrep. inversion Hrep as [? ? _ Hvals Hexcl Hexp]; subst.
+    induction ps1 as [|p r IH]; intros xs H Hsub Hndn Hndl; cbn [map sequence] in H.
+    - injection H as <-. exists []. split; [reflexivity|]. split; [reflexivity|].
+      intros F d acc D seen HF Hd HInv _ _. destruct F as [|F]; [lia|]. rewrite dec_members_S.
+      exists acc. split; [reflexivity|exact HInv].
+    - apply obind_ok in H as (x & Hx & H). apply omap_ok in H as (ys & Hys & ->).
+      apply obind_ok in Hx as (ov & Hov & Hx). apply (prop_lookup_present env Hflat) in Hov.
+      cbn [map] in Hndn. apply NoDup_cons_iff in Hndn as [Hnin Hndn'].
+      assert (Hleaves : leaves (p :: r) = prop_leaves p ++ leaves r) by reflexivity.
+      rewrite Hleaves in Hndl. destruct (NoDup_app_l _ _ Hndl) as (Hndp & Hndr & Hdisj).
+      destruct (IH ys Hys ltac:(intros; apply Hsub; right; assumption) Hndn' Hndr) as (ms & Hc & Hwf & Hloop).
+      assert (Hp : In p ps) by (apply Hsub; left; reflexivity).
+      assert (Hpl : forall l, In l (prop_leaves p) -> In l (leaves ps)).
+      { intros l Hl0. unfold leaves. apply in_flat_map. exists p. split; assumption. }
+      destruct ov as [v|].
+      + (* the property is set: one member *)
+        apply obind_ok in Hx as (lb & Hlb & Hx). apply omap_ok in Hx as (b & Hb & ->).
+        apply escape_ok in Hlb as [Hk ->].
+        destruct (p_path p) as [|p0 pr] eqn:Epath.
+        * (* exposed oneof: the value is the message itself *)
+          unfold prop_present in Hov. rewrite Epath in Hov.
+          destruct (p_ty p) as [| | |ro| | |] eqn:Ety; try discriminate.
+          destruct (lookup env ro) as [[|qs|]|] eqn:Elk; try discriminate.
+          assert (Hv : v = VMsg m) by (destruct (members_present qs m) as [|? [|]]; congruence). subst v.
+          assert (Hpq : prop_leaves p = qs) by (unfold prop_leaves; rewrite Epath, Ety, Elk; reflexivity).
+          destruct f as [|f']; [discriminate|]. rewrite enc_value_S in Hb. rewrite Elk in Hb.
+          destruct (TO f' eq_refl ro qs m b Elk Hb) as (oms & -> & Hwo & Hone).
+          { intros q w Hq Hw. apply (Hvals q w); [apply Hpl; rewrite Hpq; exact Hq|exact Hw]. }
+          exists ((p_json p, JObj oms) :: ms). split; [cbn [concat map app]; rewrite Hc; reflexivity|].
+          split; [cbn [forallb fst snd]; rewrite Hk, Hwo, Hwf; reflexivity|].
+          intros F d acc D seen HF Hd HInv HnD Hseen.
+          cbn [lsize fold_right snd] in HF. fold (lsize ms) in HF. rewrite jsize_obj in HF.
+          cbn [lnest fold_right snd] in Hd. fold (lnest ms) in Hd. rewrite jnest_obj in Hd.
+          destruct F as [|F]; [lia|]. rewrite dec_members_S.
+          rewrite (find_prop_nodup ps p (po_names ps Hok) Hp).
+          destruct F as [|F]; [lia|]. rewrite dec_member_S.
+          replace (max_nesting <? d + 1) with false by (unfold depth_ok in Hd; lia).
+          replace (mem_b (p_json p) seen) with false by (symmetry; apply mem_b_false; apply Hseen; left; reflexivity).
+          rewrite Epath. cbn [oneof_conflict].
+          destruct F as [|F]; [lia|]. rewrite dec_value_S. rewrite Ety, Elk, Epath.
+          destruct (Hone F (d + 1) ps acc D) as (acc1 & Hd1 & HInv1); try assumption.
+          { lia. } { unfold depth_ok in *. lia. }
+          { intros q Hq. apply Hpl. rewrite Hpq. exact Hq. }
+          { intros q Hq. apply HnD. rewrite Hleaves. apply in_or_app. left. rewrite Hpq. exact Hq. }
+          rewrite Hd1. cbn [obind fst snd].
+          destruct (Hloop (S (S F)) d acc1 (qs ++ D) (p_json p :: seen)) as (acc2 & Hd2 & HInv2); try assumption.
+          { lia. } { unfold depth_ok in *. lia. }
+          { intros l Hl0 Hin. apply in_app_or in Hin as [Hq|HD].
+            - apply (Hdisj l); [rewrite Hpq; exact Hq|exact Hl0].
+            - apply (HnD l); [rewrite Hleaves; apply in_or_app; right; exact Hl0|exact HD]. }
+          { intros q Hq [E|Hin]; [apply Hnin; rewrite E; apply in_map; exact Hq|].
+            apply (Hseen q); [right; exact Hq|exact Hin]. }
+          exists acc2. split; [exact Hd2|].
+          apply (inv_extend _ _ (leaves r ++ qs ++ D)); [exact HInv2| |].
+          -- intros l Hin. rewrite Hleaves, Hpq. apply in_app_or in Hin as [H1|H1]; [apply in_or_app; left; apply in_or_app; right; exact H1|].
+             apply in_app_or in H1 as [H1|H1]; [apply in_or_app; left; apply in_or_app; left; exact H1|apply in_or_app; right; exact H1].
+          -- intros l Hin _. left. rewrite Hleaves, Hpq in Hin. apply in_app_or in Hin as [H1|H1]; [|apply in_or_app; right; apply in_or_app; right; exact H1].
+             apply in_app_or in H1 as [H1|H1]; [apply in_or_app; right; apply in_or_app; left; exact H1|apply in_or_app; left; exact H1].
+        * (* a leaf *)
+          assert (Hne : p_path p <> []) by (rewrite Epath; discriminate).
+          rewrite (prop_present_leaf p m Hne) in Hov.
+          assert (Hpq : prop_leaves p = [p]) by (unfold prop_leaves; destruct (p_path p); [congruence|reflexivity]).
+          assert (HpL : In p (leaves ps)) by (apply Hpl; rewrite Hpq; left; reflexivity).
+          destruct (Hvals p v HpL Hov) as [Hrv _].
+          destruct (TV _ _ _ Hb Hrv) as (J & -> & HwJ & HJ & Hdec).
+          exists ((p_json p, J) :: ms). split; [cbn [concat map app]; rewrite Hc; reflexivity|].
+          split; [cbn [forallb fst snd]; rewrite Hk, HwJ, Hwf; reflexivity|].
+          intros F d acc D seen HF Hd HInv HnD Hseen.
+          cbn [lsize fold_right snd] in HF. fold (lsize ms) in HF.
+          cbn [lnest fold_right snd] in Hd. fold (lnest ms) in Hd.
+          destruct F as [|F]; [lia|]. rewrite dec_members_S.
+          rewrite (find_prop_nodup ps p (po_names ps Hok) Hp).
+          destruct (leaf_read ps m D acc p v J F d seen Hok Hrep HInv HpL) as (acc1 & Hd1 & HInv1); try assumption.
+          { apply HnD. rewrite Hleaves, Hpq. left. reflexivity. }
+          { lia. } { unfold depth_ok in *. lia. }
+          { apply mem_b_false. apply Hseen. left. reflexivity. }
+          rewrite Hd1. cbn [obind fst snd].
+          pose proof (jsize_pos J) as HJs.
+          destruct (Hloop F d acc1 (p :: D) (p_json p :: seen)) as (acc2 & Hd2 & HInv2); try assumption.
+          { lia. } { unfold depth_ok in *. lia. }
+          { intros l Hl0 [<-|HD]; [apply (Hdisj p); [rewrite Hpq; left; reflexivity|exact Hl0]|].
+            apply (HnD l); [rewrite Hleaves; apply in_or_app; right; exact Hl0|exact HD]. }
+          { intros q Hq [E|Hin]; [apply Hnin; rewrite E; apply in_map; exact Hq|].
+            apply (Hseen q); [right; exact Hq|exact Hin]. }
+          exists acc2. split; [exact Hd2|].
+          apply (inv_extend _ _ (leaves r ++ p :: D)); [exact HInv2| |].
+          -- intros l Hin. rewrite Hleaves, Hpq. cbn [app]. apply in_app_or in Hin as [H1|[<-|H1]];
+               [right; apply in_or_app; left; exact H1|left; reflexivity|right; apply in_or_app; right; exact H1].
+          -- intros l Hin _. left. rewrite Hleaves, Hpq in Hin. cbn [app] in Hin. destruct Hin as [<-|Hin];
+               [apply in_or_app; right; left; reflexivity|].
+             apply in_app_or in Hin as [H1|H1]; [apply in_or_app; left; exact H1|apply in_or_app; right; right; exact H1].
+      + (* not set: no member; its leaves are unpopulated in the original *)
+        injection Hx as <-. exists ms. split; [exact Hc|]. split; [exact Hwf|].
+        intros F d acc D seen HF Hd HInv HnD Hseen.
+        destruct (Hloop F d acc D seen HF Hd HInv) as (acc2 & Hd2 & HInv2).
+        { intros l Hl0. apply HnD. rewrite Hleaves. apply in_or_app. right. exact Hl0. }
+        { intros q Hq. apply Hseen. right. exact Hq. }
+        exists acc2. split; [exact Hd2|].
+        apply (inv_extend _ _ (leaves r ++ D)); [exact HInv2| |].
+        * intros l Hin. rewrite Hleaves. apply in_app_or in Hin as [H1|H1];
+            [apply in_or_app; left; apply in_or_app; right; exact H1|apply in_or_app; right; exact H1].
+        * intros l Hin HL. rewrite Hleaves in Hin. apply in_app_or in Hin as [H1|H1]; [|left; apply in_or_app; right; exact H1].
+          apply in_app_or in H1 as [H1|H1]; [|left; apply in_or_app; left; exact H1].
+          right. (* a leaf of the unset property *)
+          destruct (p_path p) as [|p0 pr] eqn:Epath.
+          -- unfold prop_present in Hov. rewrite Epath in Hov. unfold prop_leaves in H1. rewrite Epath in H1.
+             destruct (p_ty p) as [| | |ro| | |] eqn:Ety; try contradiction.
+             destruct (lookup env ro) as [[|qs|]|] eqn:Elk; try contradiction.
+             eapply (exposed_unset m qs); [| |exact Hov|exact H1].
+             ++ intros q1 q2 Hq1 Hq2. apply (Hexp p q1 q2 Hp); unfold exposed_members, prop_leaves; rewrite Epath, Ety, Elk; assumption.
+             ++ unfold prop_leaves in Hndp. rewrite Epath, Ety, Elk in Hndp. exact Hndp.
+          -- assert (Hne : p_path p <> []) by (rewrite Epath; discriminate).
+             rewrite (prop_present_leaf p m Hne) in Hov.
+             unfold prop_leaves in H1. destruct (p_path p) eqn:E2; [congruence|]. destruct H1 as [<-|[]]. rewrite E2. exact Hov.
   Qed.
 End RT.
